@@ -260,6 +260,25 @@ class MyList(list):
         return 'MyList(%s)' % list.__repr__(self)
 
 
+class FlexSpec:
+    """a spec class whose instances are EITHER plain callables OR implement glom's extension protocol
+    (an instance attribute ``glomit``): what one instance is says nothing about another"""
+
+    def __init__(self, tag, hook):
+        self.tag = tag
+        if hook:
+            self.glomit = self._glomit
+
+    def __call__(self, target):
+        return ('called', self.tag)
+
+    def _glomit(self, target, scope):
+        return ('glomit', self.tag)
+
+    def __repr__(self):
+        return f'FlexSpec({self.tag!r})'
+
+
 class AnyEq:
     """a value that claims to be equal to everything (like unittest.mock.ANY): code that looks for its
     own sentinels with == / `in` instead of `is` takes it for one of them"""
